@@ -38,6 +38,18 @@ def plan(tier, seed):
     return datasets, hashseeds, {"seed": rng.randrange(1, 10 ** 6), "runs": 40 if quick else 120, "full": True}
 
 
+def scratch_dir(label):
+    """Per-process data directory (concurrent runs of this check, e.g. against different VERIF_REPOs, must not
+    remove each other's datasets); directories of processes that no longer exist are removed."""
+    base = os.path.join(env.BUILD, "c18")
+    os.makedirs(base, exist_ok=True)
+    for name in os.listdir(base):
+        pid = name.rsplit(".p", 1)[-1]
+        if not (pid.isdigit() and os.path.exists("/proc/%s" % pid)) or int(pid) == os.getpid():
+            shutil.rmtree(os.path.join(base, name), ignore_errors=True)
+    return os.path.join(base, "%s.p%d" % (label, os.getpid()))
+
+
 def run_workers(ddir, datasets, hashseeds, spec):
     shutil.rmtree(ddir, ignore_errors=True)
     os.makedirs(ddir)
@@ -47,13 +59,21 @@ def run_workers(ddir, datasets, hashseeds, spec):
     with open(specp, "w", encoding="utf8") as f:
         json.dump(spec, f, ensure_ascii=False)
     cache = env.fresh_cache()      # initially empty: workers must see the current data files
+    # fill it ONCE before the parallel workers start: several interpreters compiling the sound-class models
+    # into the same empty cache at the same time read each other's half-written pickles (that is C20's subject)
+    warm = subprocess.run(["timeout", "600", env.PY, "-c", "import lingpy"], env=env.subprocess_env(0, cache),
+                          capture_output=True, text=True, cwd=ddir)
+    if warm.returncode != 0:
+        return {h: {"worker_error": "import lingpy failed: " + (warm.stderr or warm.stdout)[-1500:]}
+                for h in hashseeds}, dict(paths)
 
     def work(h):
         outp = os.path.join(ddir, "out_%s.json" % h)
         p = subprocess.run(["timeout", "900", env.PY, WORKER, "--worker", specp, outp],
                            env=env.subprocess_env(h, cache), capture_output=True, text=True, cwd=ddir)
         if p.returncode != 0 or not os.path.exists(outp):
-            return h, {"worker_error": "rc=%s %s" % (p.returncode, (p.stderr or p.stdout)[-1500:])}
+            err = open(outp + ".err", encoding="utf8").read() if os.path.exists(outp + ".err") else ""
+            return h, {"worker_error": "rc=%s %s %s" % (p.returncode, (p.stderr or p.stdout)[-1500:], err[-2500:])}
         return h, json.load(open(outp, encoding="utf8"))
 
     with ThreadPoolExecutor(max_workers=max(1, min(env.JOBS, 6))) as ex:
@@ -161,7 +181,7 @@ def main(tier, seed):
     proofs_ok = run.proofs(pr)
     t0 = time.time()
     datasets, hashseeds, spec = plan(tier, seed)
-    ddir = os.path.join(env.BUILD, "c18", "%s-%d" % (tier, seed))
+    ddir = scratch_dir("%s-%d" % (tier, seed))
     outs, paths = run_workers(ddir, datasets, hashseeds, spec)
     fails, stats = end_to_end(run, outs, paths, datasets, hashseeds, spec)
     t_e2e = time.time() - t0
@@ -219,7 +239,7 @@ def replay(path):
         if len(set(hs)) == 1:
             hs = [hs[0]]
         spec = {"seed": rep["random_seed"], "runs": rep["runs"], "full": True}
-        ddir = os.path.join(env.BUILD, "c18", "replay")
+        ddir = scratch_dir("replay")
         outs, paths = run_workers(ddir, [ds], hs, spec)
 
         class R:                                                   # collect instead of reporting
